@@ -4,9 +4,17 @@ Times are decimal integers (the harness uses quarter seconds).
 
   bound   := N | <int> | inf | T<int> | Tinf | TX          (None, float, Timestamp, invalid Timestamp)
   ctor    := <bound>,<bound>,<N|0|1>,<N|int>               (start, end, absolute, p1_t0)
-  event   := b | u | s | n | <int> | R, a message may be prefixed with `t` (return_timestamps=True)
-             b raw bytes, u payload without P1 time, s system-timed payload, n payload with invalid P1 time,
-             <int> payload with that P1 time, R restart()
+  event   := <message> | R (restart()), a message may be prefixed with `t` (return_timestamps=True)
+  message := b | u | s | n | <int> | m<src>.<mt>.<p1> | p<p1>.<sys>       (a message by its members)
+             b raw bytes, u payload without P1 time, s payload with system_time_ns only, n payload with invalid P1
+             time, <int> payload whose p1_time member is that time;
+             m: a sensor measurement, details.measurement_time_source <src> (0 invalid, 1 P1 time, 2 timestamped on
+                reception, 3 sender system time, 4 GPS time), details.measurement_time <mt> and details.p1_time <p1>
+                (N: invalid Timestamp, else the time);
+             p: any other payload, p1_time member <p1> (A: none / None, X: invalid Timestamp, else the time),
+                system_time_ns member <sys> (A: none, else nanoseconds)
+             `trange`/`trscript` hand the model of is_in_range what the model of get_p1_time() answers for the
+             members; `trangespec` hands the specification the message as documented (Obj.docMsg)
   state   := start,end,absolute,t0,specified,started,ended
 
   trange <ctor> <events,…|=>                -> <0/1/r per event>|<state>
@@ -14,6 +22,9 @@ Times are decimal integers (the harness uses quarter seconds).
   trmkabs <ctor> <N|int>                    -> <state> | err:ValueError
   trinter <ctor> <ctor>                     -> <state> | err:ValueError
   trparse <string> <N|0|1>                  -> <state> | err:ValueError
+  trmsg <message>                           -> <model of get_p1_time: raw|none|invalid|int>|<model of get_system_time_ns:
+                                               none|nan|ns<int>|t<time>>|<documented P1 time N|int>|<documented
+                                               system time>|<members consistent 0|1>
   trscript <ctorA> <eventsA|=> <ctorB|-> <eventsB|=> <op> <events|=>
       op := ab (A.intersect(B)) | ba (B.intersect(A)) | mk<N|int> (A.make_absolute) | id (a copy of A),
       applied after A and B have been shown their events; the further events go to the result
@@ -46,12 +57,40 @@ def trCtor (s : String) : Option TimeRange :=
     | _, _, _, _ => none
   | _ => none
 
-def trMsg (s : String) : Option Msg :=
+def trSource (s : String) : Option TimeSource :=
+  if s == "0" then some .invalid else if s == "1" then some .p1Time else if s == "2" then some .timestampedOnReception
+  else if s == "3" then some .senderSystemTime else if s == "4" then some .gpsTime else none
+
+/-- A message by its members (see the header): the short forms are ordinary payloads. -/
+def trObj (s : String) : Option Obj :=
   if s == "b" then some .raw
-  else if s == "u" then some .noP1
-  else if s == "s" then some .noP1
-  else if s == "n" then some .invalidP1
-  else s.toInt?.map .p1
+  else if s == "u" then some (.plain none none)
+  else if s == "s" then some (.plain none (some 3000000000))
+  else if s == "n" then some (.plain (some none) none)
+  else if s.startsWith "m" then
+    match (s.drop 1).toString.splitOn "." with
+    | [src, mt, p1] =>
+      match trSource src, trOptInt mt, trOptInt p1 with
+      | some src, some mt, some p1 => some (.meas ⟨mt, src, p1⟩)
+      | _, _, _ => none
+    | _ => none
+  else if s.startsWith "p" then
+    match (s.drop 1).toString.splitOn "." with
+    | [p1, sys] =>
+      let p1v : Option (Option (Option Int)) :=
+        if p1 == "A" then some none else if p1 == "X" then some (some none) else p1.toInt?.map fun t => some (some t)
+      let sysv : Option (Option Int) := if sys == "A" then some none else sys.toInt?.map some
+      match p1v, sysv with
+      | some p1v, some sysv => some (.plain p1v sysv)
+      | _, _ => none
+    | _ => none
+  else s.toInt?.map fun t => .plain (some (some t)) none
+
+/-- What the model of `is_in_range` is given: the accessors' answer. -/
+def trMsg (s : String) : Option Msg := (trObj s).map Obj.msg
+
+/-- What the specification is given: the message as documented. -/
+def trDocMsg (s : String) : Option Msg := (trObj s).map Obj.docMsg
 
 def trEvent (s : String) : Option TREvent :=
   if s == "R" then some .restart
@@ -70,6 +109,26 @@ def showOpt (f : α → String) : Option α → String
   | some x => f x
 
 def showBool (b : Bool) : String := if b then "1" else "0"
+
+def showMsg : Msg → String
+  | .raw => "raw"
+  | .noP1 => "none"
+  | .invalidP1 => "invalid"
+  | .p1 t => toString t
+
+def showSys : SysTime → String
+  | .none => "none"
+  | .nan => "nan"
+  | .ns v => s!"ns{v}"
+  | .ofTime t => s!"t{t}"
+
+def cmdTRMsg (args : List String) : String :=
+  match args with
+  | [m] =>
+    match trObj m with
+    | some o => s!"{showMsg o.msg}|{showSys o.getSystemTimeNs}|{showOpt toString o.docP1}|{showSys o.docSys}|{showBool o.unambiguous}"
+    | none => "bad-args"
+  | _ => "bad-args"
 
 def showState (r : TimeRange) : String :=
   s!"{showOpt showExt r.start},{showOpt toString r.stop},{showBool r.absolute},{showOpt toString r.t0},{showBool r.specified},{showBool r.started},{showBool r.ended}"
@@ -91,7 +150,7 @@ def cmdTRange (args : List String) : String :=
 def cmdTRangeSpec (args : List String) : String :=
   match args with
   | [i, ms] =>
-    match i.splitOn ",", trList trMsg ms with
+    match i.splitOn ",", trList trDocMsg ms with
     | [a, b, c, d], some ms =>
       match (if a == "N" then some none else (trExt a).map some), trOptInt b, trOptBool c, trOptInt d with
       | some a, some b, some (some c), some d => String.join ((Interval.seq ⟨a, b, c, d⟩ ms).map showBool)
@@ -187,6 +246,7 @@ def dispatchTimeRange (cmd : String) (args : List String) : Option String :=
   | "trinter" => some (cmdTRInter args)
   | "trparse" => some (cmdTRParse args)
   | "trscript" => some (cmdTRScript args)
+  | "trmsg" => some (cmdTRMsg args)
   | _ => none
 
 end FeVerif
